@@ -45,6 +45,32 @@ example :
       (Client.mk 1 0).isAcquired cfg (stateAfter cfg (log.take 4)) 1 112 = true ∧
       (Client.mk 2 0).isAcquired cfg (stateAfter cfg (log.take 4)) 1 112 = false := by decide
 
+/-- `mutex` without fixing which of the two replicas is ahead: two clients looking at replicas after
+`pa` resp. `pb` entries of the common log at the same instant; stamps in the log are `≤ now`; neither has
+asked to release.  Then at most one of them considers the lock held. -/
+theorem mutex_any_order (cfg : Cfg) (hfix : cfg.mono = true) (log : List Cmd) (pa pb : Nat)
+    (ca cb : Client) (l now : Nat)
+    (hclock : ClocksAgree now log)
+    (hrela : NotReleasedBy l ca.self log) (hrelb : NotReleasedBy l cb.self log)
+    (ha : ca.isAcquired cfg (stateAfter cfg (log.take pa)) l now = true)
+    (hb : cb.isAcquired cfg (stateAfter cfg (log.take pb)) l now = true) :
+    ca.self = cb.self := by
+  have hsub : ∀ p q : Nat, ∀ x ∈ (log.take q).drop p, x ∈ log :=
+    fun p q x hx => List.mem_of_mem_take (List.mem_of_mem_drop hx)
+  rcases Nat.le_total pa pb with h | h
+  · exact mutex cfg hfix log pa pb h ca cb l now (fun c hc => hclock c (hsub _ _ c hc))
+      (fun hc => hrela (hsub _ _ _ hc)) ha hb
+  · exact (mutex cfg hfix log pb pa h cb ca l now (fun c hc => hclock c (hsub _ _ c hc))
+      (fun hc => hrelb (hsub _ _ _ hc)) hb ha).symm
+
+/-- non-vacuity of `mutex_any_order`: same log, client 1 on the shorter or the longer prefix. -/
+example :
+    let cfg : Cfg := { U := 10, mono := true }
+    let log : List Cmd := [.acquire 1 1 100, .prolongate 1 104, .acquire 1 1 101, .acquire 1 2 112]
+    ClocksAgree 112 log ∧ NotReleasedBy 1 1 log ∧
+      (Client.mk 1 0).isAcquired cfg (stateAfter cfg (log.take 4)) 1 112 = true ∧
+      (Client.mk 1 7).isAcquired cfg (stateAfter cfg (log.take 1)) 1 109 = true := by decide
+
 /-- **Mutual exclusion, any variant (in particular the pinned code), under `MonotoneStamps`**: same
 statement, with the additional hypothesis that the stamps of the log (up to `p₂`) are non-decreasing in
 log order.  What is missing for the pinned code: logs in which a stamp is followed by a smaller one --
